@@ -279,6 +279,43 @@ class World:
         self.callsites()
         return self._calls_of.get(id(fi), [])
 
+    def _kwargs_literal(self, call):
+        """{name: expression} when every `**x` of the call is a local bound once, in the enclosing function, to a
+        dict(...) / {...} with literal keys and never edited afterwards (a shared keyword table); None otherwise."""
+        stars = [k.value for k in call.keywords if k.arg is None]
+        if not stars or not all(isinstance(x, ast.Name) for x in stars):
+            return None
+        owner = None
+        for fi in self.prog.functions.values():
+            if any(n is call for n in ast.walk(fi.node)):
+                if owner is None or any(n is fi.node for n in ast.walk(owner.node)):
+                    owner = fi  # the innermost function containing the call
+        if owner is None:
+            return None
+        out = {}
+        for x in stars:
+            binds = [n for n in ast.walk(owner.node) if isinstance(n, (ast.Assign, ast.AnnAssign, ast.AugAssign, ast.For, ast.comprehension, ast.NamedExpr, ast.With)) and any(isinstance(t, ast.Name) and t.id == x.id and isinstance(t.ctx, ast.Store) for t in ast.walk(n) if not isinstance(t, ast.Call))]
+            binds = [n for n in binds if isinstance(n, (ast.Assign, ast.AnnAssign)) and any(isinstance(t, ast.Name) and t.id == x.id for t in (n.targets if isinstance(n, ast.Assign) else [n.target]))] if all(isinstance(n, (ast.Assign, ast.AnnAssign)) for n in binds) else None
+            if not binds or len(binds) != 1 or x.id in owner.params:
+                return None
+            v = binds[0].value
+            if isinstance(v, ast.Call) and isinstance(v.func, ast.Name) and v.func.id == "dict" and not v.args and all(k.arg is not None for k in v.keywords):
+                table = {k.arg: k.value for k in v.keywords}
+            elif isinstance(v, ast.Dict) and all(isinstance(k, ast.Constant) and isinstance(k.value, str) for k in v.keys):
+                table = {k.value: val for k, val in zip(v.keys, v.values)}
+            else:
+                return None
+            for n in ast.walk(owner.node):
+                if isinstance(n, ast.Subscript) and isinstance(n.value, ast.Name) and n.value.id == x.id and isinstance(n.ctx, (ast.Store, ast.Del)):
+                    return None
+                if isinstance(n, ast.Call) and isinstance(n.func, ast.Attribute) and isinstance(n.func.value, ast.Name) and n.func.value.id == x.id and n.func.attr in ("update", "pop", "popitem", "clear", "setdefault", "__setitem__", "__delitem__"):
+                    return None
+            dup = set(out) & set(table)
+            if dup:
+                return None
+            out.update(table)
+        return out
+
     def arg_for(self, call, callee, pname, shift, bound):
         """Expression bound to parameter `pname` at this call; ('default', node) / ('missing', None) /
         ('opaque', None) when the call uses *args / **kwargs."""
@@ -297,7 +334,12 @@ class World:
             if v is not None:
                 return ("arg", v)
             if any(k.arg is None for k in call.keywords):
-                return ("opaque", None)
+                lit = self._kwargs_literal(call)
+                if lit is not None:
+                    if pname in lit:
+                        return ("arg", lit[pname])
+                else:
+                    return ("opaque", None)
             d = func_defaults(callee.node).get(pname)
             if d is not None:
                 return ("default", d)
